@@ -176,6 +176,17 @@ func runC17(c *Ctx) {
 		major, minor := byte(c.T.Choose(256)), byte(c.T.Choose(256))
 		capsOf[p.Name], verOf[p.Name] = caps, [2]byte{major, minor}
 		p.Pkts = []CPkt{PHandshake(caps, major, minor), PTunnelCreate(ValidCookie(c, tw, p, p.AllowedHost), true), PTunnelAuth("n")}
+		if c.T.Bool(1, 4) {
+			// a client that pipelines: the handshake travels in one transport message with the
+			// packets that follow it
+			tot := 0
+			for _, pk := range p.Pkts {
+				tot += len(pk.Bytes)
+			}
+			first := len(p.Pkts[0].Bytes) + len(p.Pkts[1].Bytes)
+			p.Segs = [][][2]int{{{0, tot}}, {{0, first}, {first, tot}}}[c.T.Choose(2)]
+			c.S.Count("probe.pipelined_handshake")
+		}
 	}
 	tw.Tuns = StartTunnels(c, tw.Plans)
 	RunTunnels(c, tw.Tuns, 3000)
